@@ -20,8 +20,9 @@ import traceback
 from .core import _mix, Sim, StepCap, Deadlock, HarnessError
 
 VERIF = os.path.dirname(os.path.dirname(os.path.abspath(__file__)))
-REPLAYS = os.path.join(VERIF, 'replays')
-EVIDENCE = os.path.join(VERIF, 'evidence')
+_OUT = os.environ.get('VERIF_OUT') or VERIF       # trials against a patched scratch copy write their evidence/replays elsewhere
+REPLAYS = os.path.join(_OUT, 'replays')
+EVIDENCE = os.path.join(_OUT, 'evidence')
 KNOWN = os.path.join(VERIF, 'known_findings.json')
 
 
